@@ -56,7 +56,12 @@ FPREF = [("ref/fpref.cpp", ["-O0", "-frounding-math", "-ffp-contract=off", "-w"]
 def cfgs_alloc(tier, inc):
     """the three implementations selected by the build: C++11/14 over-allocation, C++17/20 aligned_alloc, SSE _mm_malloc; each plain, under ASan+UBSan and under UBSan-trap"""
     out = []
-    for macros, std in (([], "c++11"), ([], "c++14"), ([], "c++17"), ([], "c++20"), (["SSE2"], "c++11"), (["SSE2"], "c++17")):
+    pts = [([], "c++11"), ([], "c++14"), ([], "c++17"), ([], "c++20"), (["SSE2"], "c++11"), (["SSE2"], "c++17"),
+           # x86 without any SIMD macro (AVEL_X86 defined, AVEL_SSE not): allocate and deallocate must pick the same implementation
+           (["X86"], "c++11"), (["POPCNT", "LZCNT"], "c++14")]
+    if tier != "quick":
+        pts += [(["X86"], "c++17"), (["BMI2"], "c++20"), (["AVX2"], "c++14"), (list(C.EVERYTHING), "c++20")]
+    for macros, std in pts:
         out.append(C.Config(macros, cxx="g++", std=std, opt="-O1"))
         out.append(C.Config(macros, cxx="g++", std=std, opt="-O1", san="asan"))
         out.append(C.Config(macros, cxx="clang++", std=std, opt="-O1", san="ubtrap"))
@@ -72,8 +77,12 @@ def cfgs_prefetch(tier, inc):
         for cxx in ("g++", "clang++"):
             for opt in (("-O0", "-O1", "-O2") if tier != "quick" else ("-O0", "-O2")):
                 out.append(C.Config(macros, cxx=cxx, std="c++11" if cxx == "g++" else "c++17", opt=opt))
+    # the documented AVEL_Ln_CACHE_LINE_SIZE overrides (docs/Cache.md): the loop stride is no longer 64 and differs per level
+    lines = ("-DAVEL_L1_CACHE_LINE_SIZE=32", "-DAVEL_L2_CACHE_LINE_SIZE=128", "-DAVEL_L3_CACHE_LINE_SIZE=256")
+    out.append(C.Config([], extra=lines, opt="-O2")); out.append(C.Config(["SSE2"], cxx="clang++", std="c++17", extra=lines, opt="-O1"))
     if tier != "quick":
         out.append(C.Config(list(C.EVERYTHING), opt="-O2")); out.append(C.Config(["AVX2"], cxx="clang++", std="c++20", opt="-O1"))
+        out.append(C.Config(["SSE2"], extra=("-DAVEL_L1_CACHE_LINE_SIZE=128", "-DAVEL_L2_CACHE_LINE_SIZE=32", "-DAVEL_L3_CACHE_LINE_SIZE=16"), opt="-O0"))
     return out
 
 
